@@ -394,7 +394,7 @@ def _model_values(model, watch):
             if z3.is_int_value(v):
                 out[name] = v.as_long()
             elif z3.is_string_value(v):
-                out[name] = v.as_string()
+                out[name] = py_string(v)
             elif z3.is_true(v) or z3.is_false(v):
                 out[name] = z3.is_true(v)
             else:
